@@ -1,0 +1,127 @@
+//go:build verif
+// +build verif
+
+// Verification hooks. Compiled only with `-tags verif`; add-only: nothing here changes the
+// behaviour of the package, it only exports package-private entry points so that an external
+// harness can run the real code in-process.
+
+package statefulset
+
+import (
+	kubeapps "k8s.io/api/apps/v1"
+	v1 "k8s.io/api/core/v1"
+	appsv1 "k8s.io/client-go/kubernetes/typed/apps/v1"
+	"k8s.io/client-go/tools/record"
+	"k8s.io/client-go/util/workqueue"
+
+	apps "github.com/pingcap/advanced-statefulset/client/apis/apps/v1"
+)
+
+// VerifControl exposes the private methods of defaultStatefulSetControl.
+type VerifControl struct {
+	ssc *defaultStatefulSetControl
+}
+
+func VerifNewControl(
+	podControl StatefulPodControlInterface,
+	statusUpdater StatefulSetStatusUpdaterInterface,
+	csAppsV1 appsv1.AppsV1Interface,
+	recorder record.EventRecorder) *VerifControl {
+	return &VerifControl{ssc: &defaultStatefulSetControl{podControl, statusUpdater, csAppsV1, recorder}}
+}
+
+func (c *VerifControl) Interface() StatefulSetControlInterface { return c.ssc }
+
+func (c *VerifControl) UpdateStatefulSetCore(
+	set *apps.StatefulSet,
+	currentRevision *kubeapps.ControllerRevision,
+	updateRevision *kubeapps.ControllerRevision,
+	collisionCount int32,
+	pods []*v1.Pod) (*apps.StatefulSetStatus, error) {
+	return c.ssc.updateStatefulSet(set, currentRevision, updateRevision, collisionCount, pods)
+}
+
+func (c *VerifControl) UpdateStatefulSetStatus(set *apps.StatefulSet, status *apps.StatefulSetStatus) error {
+	return c.ssc.updateStatefulSetStatus(set, status)
+}
+
+func (c *VerifControl) GetStatefulSetRevisions(
+	set *apps.StatefulSet,
+	revisions []*kubeapps.ControllerRevision) (*kubeapps.ControllerRevision, *kubeapps.ControllerRevision, int32, error) {
+	return c.ssc.getStatefulSetRevisions(set, revisions)
+}
+
+func (c *VerifControl) TruncateHistory(
+	set *apps.StatefulSet,
+	pods []*v1.Pod,
+	revisions []*kubeapps.ControllerRevision,
+	current *kubeapps.ControllerRevision,
+	update *kubeapps.ControllerRevision) error {
+	return c.ssc.truncateHistory(set, pods, revisions, current, update)
+}
+
+// Controller-level entry points.
+
+func (ssc *StatefulSetController) VerifSync(key string) error { return ssc.sync(key) }
+
+func (ssc *StatefulSetController) VerifProcessNextWorkItem() bool { return ssc.processNextWorkItem() }
+
+func (ssc *StatefulSetController) VerifQueue() workqueue.RateLimitingInterface { return ssc.queue }
+
+func (ssc *StatefulSetController) VerifSetQueue(q workqueue.RateLimitingInterface) { ssc.queue = q }
+
+func (ssc *StatefulSetController) VerifSetControl(c StatefulSetControlInterface) { ssc.control = c }
+
+func (ssc *StatefulSetController) VerifAddPod(obj interface{}) { ssc.addPod(obj) }
+
+func (ssc *StatefulSetController) VerifUpdatePod(old, cur interface{}) { ssc.updatePod(old, cur) }
+
+func (ssc *StatefulSetController) VerifDeletePod(obj interface{}) { ssc.deletePod(obj) }
+
+func (ssc *StatefulSetController) VerifEnqueueStatefulSet(obj interface{}) { ssc.enqueueStatefulSet(obj) }
+
+func (ssc *StatefulSetController) VerifAdoptOrphanRevisions(set *apps.StatefulSet) error {
+	return ssc.adoptOrphanRevisions(set)
+}
+
+// Pure helpers.
+
+func VerifGetPatch(set *apps.StatefulSet) ([]byte, error) { return getPatch(set) }
+
+func VerifNewRevision(set *apps.StatefulSet, revision int64, collisionCount *int32) (*kubeapps.ControllerRevision, error) {
+	return newRevision(set, revision, collisionCount)
+}
+
+func VerifNextRevision(revisions []*kubeapps.ControllerRevision) int64 { return nextRevision(revisions) }
+
+func VerifNewVersionedStatefulSetPod(currentSet, updateSet *apps.StatefulSet, currentRevision, updateRevision string, ordinal int) *v1.Pod {
+	return newVersionedStatefulSetPod(currentSet, updateSet, currentRevision, updateRevision, ordinal)
+}
+
+func VerifNewStatefulSetPod(set *apps.StatefulSet, ordinal int) *v1.Pod { return newStatefulSetPod(set, ordinal) }
+
+func VerifIdentityMatches(set *apps.StatefulSet, pod *v1.Pod) bool { return identityMatches(set, pod) }
+
+func VerifStorageMatches(set *apps.StatefulSet, pod *v1.Pod) bool { return storageMatches(set, pod) }
+
+func VerifGetPersistentVolumeClaims(set *apps.StatefulSet, pod *v1.Pod) map[string]v1.PersistentVolumeClaim {
+	return getPersistentVolumeClaims(set, pod)
+}
+
+func VerifGetParentNameAndOrdinal(pod *v1.Pod) (string, int) { return getParentNameAndOrdinal(pod) }
+
+func VerifIsMemberOf(set *apps.StatefulSet, pod *v1.Pod) bool { return isMemberOf(set, pod) }
+
+func VerifCompleteRollingUpdate(set *apps.StatefulSet, status *apps.StatefulSetStatus) {
+	completeRollingUpdate(set, status)
+}
+
+func VerifInconsistentStatus(set *apps.StatefulSet, status *apps.StatefulSetStatus) bool {
+	return inconsistentStatus(set, status)
+}
+
+func VerifHashControllerRevision(revision *kubeapps.ControllerRevision, probe *int32) string {
+	return hashControllerRevision(revision, probe)
+}
+
+func VerifControllerRevisionName(prefix, hash string) string { return controllerRevisionName(prefix, hash) }
